@@ -7,7 +7,8 @@ MODE="${1:-quick}"
 export VERIF_SEED="${VERIF_SEED:-1}"
 A=$(scripts/build.sh asan) || exit 2
 T=$(scripts/build.sh tsan) || exit 2
-mkdir -p evidence replays .build/run
+EVID="${VERIF_EVIDENCE_DIR:-/verif/evidence}"
+mkdir -p "$EVID" replays .build/run
 EA=.build/run/C18-asan-$$.json; ET=.build/run/C18-tsan-$$.json
 RC=0
 "$A" check --property C18 --tier "$MODE" --seed "$VERIF_SEED" --evidence "$EA" --known /verif/known_findings.json; r=$?
@@ -15,7 +16,7 @@ RC=0
 "$T" check --property C18 --tier "$MODE" --seed "$VERIF_SEED" --evidence "$ET" --known /verif/known_findings.json; r=$?
 [ $r -gt $RC ] && RC=$r
 if [ $RC -ne 2 ] && [ -f "$EA" ] && [ -f "$ET" ]; then
-python3 - "$EA" "$ET" <<'PY'
+python3 - "$EA" "$ET" "$EVID/C18.json" <<'PY'
 import json, sys
 a = json.load(open(sys.argv[1])); t = json.load(open(sys.argv[2]))
 ev = t
@@ -30,7 +31,7 @@ ct["evaluations_tsan_build"] = t["coverage"]["evaluations"] - ca["evaluations"]
 ct["distinct_nontrivial"] = max(ca["distinct_nontrivial"], ct["distinct_nontrivial"])
 ct["counters_asan_ubsan_build"] = ca.get("counters", {})
 ct["rule"] += " | evaluations = runs in the ASan/UBSan build + runs in the TSan build over the same seeds"
-json.dump(ev, open("/verif/evidence/C18.json", "w"), indent=1, sort_keys=True)
+json.dump(ev, open(sys.argv[3], "w"), indent=1, sort_keys=True)
 PY
 fi
 rm -f "$EA" "$ET"
